@@ -420,15 +420,13 @@ func (r *Resolver) VisitWhileStmt(stmt *ast.WhileStmt) ast.VisitResult {
 }
 
 func (r *Resolver) VisitForStmt(stmt *ast.ForStmt) ast.VisitResult {
-	r.setScope(stmt.Body.Symbols)
-	// only visit the InitVal because the variable is already in the scope
+	// the bounds are outside the scope of the counter and of the body
 	r.visit(stmt.Initializer.InitVal)
 	r.visit(stmt.To)
 	if stmt.StepSize != nil {
 		r.visit(stmt.StepSize)
 	}
 	// r.visit(stmt.Body) // created by calling checkedDeclration in the parser so already resolved
-	r.exitScope()
 	return ast.VisitRecurse
 }
 
